@@ -34,6 +34,7 @@ type FuncSpec struct {
 	Props    []string
 	Requires []*Clause
 	Ensures  []*Clause
+	Exits    []*Clause // assertions at every return point over the function's locals (not visible to callers)
 	Loops    map[int]*LoopSpec
 	Trusted  string // non-empty: body not checked
 	Modifies []string
@@ -57,6 +58,7 @@ type GhostFunc struct {
 	Params  []GhostVar
 	Result  string
 	Body    string // "" → uninterpreted
+	Opaque  bool   // body given as a quantified definitional axiom with a trigger instead of a macro
 	PkgPath string
 }
 
@@ -72,12 +74,13 @@ type Specs struct {
 	GhostFuncs map[string]*GhostFunc
 	GhostOrder []string
 	Axioms     []*Axiom
+	Aliases    map[string]map[string]string // package path → alias → import path
 	EffectFree []*regexp.Regexp // name patterns of functions treated as effect-free with havocked results
 	Errors     []string
 }
 
 func newSpecs() *Specs {
-	return &Specs{Funcs: map[string]*FuncSpec{}, GhostVars: map[string]*GhostVar{}, GhostFuncs: map[string]*GhostFunc{}}
+	return &Specs{Funcs: map[string]*FuncSpec{}, GhostVars: map[string]*GhostVar{}, GhostFuncs: map[string]*GhostFunc{}, Aliases: map[string]map[string]string{}}
 }
 
 var labelRe = regexp.MustCompile(`^#([A-Za-z0-9_.\-]+)\s*(\[[A-Z0-9, ]+\])?\s*:\s*`)
@@ -224,6 +227,12 @@ func (sp *Specs) parseFile(f *ast.File, fset *token.FileSet, pkgPath string) {
 				continue
 			}
 			cur.Ensures = append(cur.Ensures, parseClause(rest, l.file, l.line, autoLabel("post")))
+		case "exit":
+			if cur == nil {
+				sp.errf(l.file, l.line, "exit outside func")
+				continue
+			}
+			cur.Exits = append(cur.Exits, parseClause(rest, l.file, l.line, autoLabel("exit")))
 		case "loop":
 			if cur == nil {
 				sp.errf(l.file, l.line, "loop outside func")
@@ -277,6 +286,12 @@ func (sp *Specs) parseFile(f *ast.File, fset *token.FileSet, pkgPath string) {
 				cur.Pure = true
 				cur.HasMod = true
 			}
+		case "reveal":
+			if cur != nil {
+				for _, n := range strings.Fields(strings.ReplaceAll(rest, ",", " ")) {
+					cur.Options["reveal:"+n] = "true"
+				}
+			}
 		case "results":
 			if cur != nil {
 				cur.Results = strings.Fields(strings.ReplaceAll(rest, ",", " "))
@@ -297,6 +312,17 @@ func (sp *Specs) parseFile(f *ast.File, fset *token.FileSet, pkgPath string) {
 			cur = nil
 			c := parseClause(rest, l.file, l.line, fmt.Sprintf("axiom%d", len(sp.Axioms)))
 			sp.Axioms = append(sp.Axioms, &Axiom{Label: c.Label, Text: c.Text, PkgPath: pkgPath})
+		case "import":
+			cur = nil
+			fs := strings.Fields(rest)
+			if len(fs) != 2 {
+				sp.errf(l.file, l.line, "import <alias> <path>")
+				continue
+			}
+			if sp.Aliases[pkgPath] == nil {
+				sp.Aliases[pkgPath] = map[string]string{}
+			}
+			sp.Aliases[pkgPath][fs[0]] = strings.ReplaceAll(fs[1], "@/", modulePath+"/")
 		case "effectfree":
 			cur = nil
 			for _, pat := range strings.Fields(rest) {
@@ -315,7 +341,7 @@ func (sp *Specs) parseFile(f *ast.File, fset *token.FileSet, pkgPath string) {
 	}
 }
 
-var ghostFuncRe = regexp.MustCompile(`^func\s+([A-Za-z_][A-Za-z0-9_]*)\s*\(([^)]*)\)\s*([a-z]+)\s*(=\s*(.*))?$`)
+var ghostFuncRe = regexp.MustCompile(`^(?:opaque\s+)?func\s+([A-Za-z_][A-Za-z0-9_]*)\s*\(([^)]*)\)\s*([a-z]+)\s*(=\s*(.*))?$`)
 var ghostVarRe = regexp.MustCompile(`^var\s+([A-Za-z_][A-Za-z0-9_]*)\s+([a-z]+)$`)
 
 func (sp *Specs) parseGhost(rest, file string, line int, pkgPath string) {
@@ -324,7 +350,7 @@ func (sp *Specs) parseGhost(rest, file string, line int, pkgPath string) {
 		return
 	}
 	if m := ghostFuncRe.FindStringSubmatch(rest); m != nil {
-		gf := &GhostFunc{Name: m[1], Result: m[3], Body: strings.TrimSpace(m[5]), PkgPath: pkgPath}
+		gf := &GhostFunc{Name: m[1], Result: m[3], Body: strings.TrimSpace(m[5]), PkgPath: pkgPath, Opaque: strings.HasPrefix(rest, "opaque")}
 		if strings.TrimSpace(m[2]) != "" {
 			for _, p := range strings.Split(m[2], ",") {
 				fs := strings.Fields(p)
